@@ -454,7 +454,21 @@ func renameAtoms(c Constraint, m map[string]string, prefix string) Constraint {
 // entailed by every returned set.
 func FactSets(f *ssa.Function, at *ssa.BasicBlock, isOwn func(*ssa.Function) bool) [][]Constraint {
 	env := &LinEnv{Fn: f}
-	sets := [][]Constraint{env.FactsAt(at)}
+	return factSets(f, env.FactsAt(at), func(d *ssa.BasicBlock, idx int) bool { return EdgeDominates(d, idx, at) }, isOwn)
+}
+
+// FactSetsOnEdge is FactSets for the program point "on the edge pred -> pred.Succs[succ]".
+func FactSetsOnEdge(f *ssa.Function, pred *ssa.BasicBlock, succ int, isOwn func(*ssa.Function) bool) [][]Constraint {
+	env := &LinEnv{Fn: f}
+	distinct := len(pred.Succs) == 2 && pred.Succs[0] != pred.Succs[1]
+	return factSets(f, env.FactsOnEdge(pred, pred.Succs[succ]), func(d *ssa.BasicBlock, idx int) bool {
+		return EdgeDominates(d, idx, pred) || (d == pred && idx == succ && distinct)
+	}, isOwn)
+}
+
+func factSets(f *ssa.Function, base []Constraint, domEdge func(d *ssa.BasicBlock, idx int) bool, isOwn func(*ssa.Function) bool) [][]Constraint {
+	env := &LinEnv{Fn: f}
+	sets := [][]Constraint{base}
 	for _, d := range f.Blocks {
 		iff := IfOf(d)
 		if iff == nil {
@@ -477,7 +491,7 @@ func FactSets(f *ssa.Function, at *ssa.BasicBlock, isOwn func(*ssa.Function) boo
 		if cmp.Op == token.EQL {
 			nilEdge = 0
 		}
-		if !EdgeDominates(d, nilEdge, at) {
+		if !domEdge(d, nilEdge) {
 			continue
 		}
 		var call *ssa.Call
@@ -511,6 +525,18 @@ func FactSets(f *ssa.Function, at *ssa.BasicBlock, isOwn func(*ssa.Function) boo
 			var fs []Constraint
 			for _, c := range genv.FactsAt(r.Block()) {
 				fs = append(fs, renameAtoms(c, m, g.Name()+"·"))
+			}
+			// the caller's view of the results: extract #i of the call equals the value g returns here
+			if refs := call.Referrers(); refs != nil {
+				for _, u := range *refs {
+					ex, ok := u.(*ssa.Extract)
+					if !ok || ex.Index >= len(r.Results) || !isIntType(ex.Type()) {
+						continue
+					}
+					rv := renameAtoms(Constraint{L: genv.Lin(r.Results[ex.Index])}, m, g.Name()+"·").L
+					x := env.atom(ex)
+					fs = append(fs, Constraint{L: rv.AddScaled(x, -1)}, Constraint{L: x.AddScaled(rv, -1)})
+				}
 			}
 			alts = append(alts, fs)
 		}
@@ -619,4 +645,22 @@ func ProveLEAt(f *ssa.Function, at *ssa.BasicBlock, a, b ssa.Value) bool {
 		return true
 	}
 	return rec(map[*ssa.Phi]ssa.Value{}, nil, 0)
+}
+
+// EntailedOnEdge: like EntailedAt, for the program point on the edge pred -> pred.Succs[succ].
+func EntailedOnEdge(f *ssa.Function, pred *ssa.BasicBlock, succ int, v ssa.Value, bound int64, upper bool, isOwn func(*ssa.Function) bool) bool {
+	env := &LinEnv{Fn: f}
+	lv := env.Lin(v)
+	for _, facts := range FactSetsOnEdge(f, pred, succ, isOwn) {
+		ok := false
+		if upper {
+			ok = Entails(facts, lv, NewLin(bound))
+		} else {
+			ok = Entails(facts, NewLin(bound), lv)
+		}
+		if !ok {
+			return false
+		}
+	}
+	return true
 }
